@@ -151,3 +151,13 @@ Proof.
     + apply renamed_same; [exact R1' | exact I1 | apply incl_refl].
     + cbn [map pop_of_oitem rename_pop]. constructor; [|constructor]. cbn [same_code]. apply carry_end.
 Qed.
+
+(* non-vacuity: the blueprint of Comp/MacroBuildProofs.v (a loop, a return, a variable) expanded at two different states
+   of the counters - different labels, different operation numbers, one graph *)
+Example ex_two_expansions :
+  let o1 := fst (fst (build [("$x"%string, PInt 5)] ex_bp 10 100)) in
+  let o2 := fst (fst (build [("$x"%string, PInt 5)] ex_bp 40 7)) in
+  out_labels o1 <> out_labels o2 /\ out_numbers o1 <> out_numbers o2 /\
+  cfg_of_pops [map pop_of_oitem o1] = cfg_of_pops [map pop_of_oitem o2] /\
+  length (cfg_of_pops [map pop_of_oitem o1]) = 10.
+Proof. vm_compute. repeat split; discriminate. Qed.
